@@ -140,6 +140,19 @@ Theorem C12_bound_chain_total : forall c, In c bound_family -> crashes [] bound_
 Proof. exact bound_chain_total. Qed.
 Print Assumptions C12_bound_chain_total.
 
+(* 6c. NameCheckVisitor._get_typeis_parameter, translated statement by statement into
+       Gen.Total.typeis_index (cm / im = is_classmethod / is_instancemethod, n = len(info.params)):
+       the subscript info.params[index] is in range whenever it is reached, and the function
+       returns exactly the parameter after self/cls when there is one *)
+Theorem C12_typeis_index_in_range : forall cm im n i, typeis_index cm im n = Some i -> (i < n)%nat.
+Proof. exact typeis_index_in_range. Qed.
+Print Assumptions C12_typeis_index_in_range.
+
+Theorem C12_typeis_index_spec : forall cm im n,
+  typeis_index cm im n = (let k := if cm || im then 1 else 0 in if (k <? n)%nat then Some k else None)%nat.
+Proof. exact typeis_index_spec. Qed.
+Print Assumptions C12_typeis_index_spec.
+
 (* 7. constraints: however And/Or constraints are built (make, invert), apply never
       meets `left, *rest = []` *)
 Theorem C12_constraint_apply_total : forall s, built s -> apply_crashes s = false.
